@@ -80,6 +80,7 @@ def plan(tier, rng, sl, nslices, stats):
 
 
 def run_case(c, stats):
+    from pyformlang.cfg import Terminal
     g = gcfg.build(c)
     stats.cls("vc:" + c["vc"])
     with core.oracle_mode():
@@ -100,7 +101,7 @@ def run_case(c, stats):
         if w.count("zz_foreign") > 1:
             continue
         total += 1
-        call(g.contains, values.word_form(w, total))
+        call(g.contains, values.word_form(w, total, wrap=Terminal))
     call(lambda: [] in g)
     call(lambda: terms[:1] in g)
     call(g.generate_epsilon)
